@@ -296,7 +296,11 @@ class Compiler:
     return dsts
 
   def find_handler(self, exname):
-    for names, edges in reversed(self.handlers):
+    for entry in reversed(self.handlers):
+      names, edges = entry[0], entry[1]
+      if names == "<with>":
+        # a with-block: the exception passes through its exit (release), then goes on outwards
+        return edges.setdefault(exname, [])
       if names is None or exname in names or "Exception" in names or "BaseException" in names:
         return edges
     return None
@@ -479,6 +483,12 @@ class Compiler:
   def do_return(self, val):
     fr = self.frames[-1]
     fr.n_returns += 1
+    if getattr(fr, "withs", None):
+      if isinstance(val, SE):
+        tmp = self.var("retval")
+        self.assign(tmp, val.x)
+        val = SE(V(tmp), val.typ)
+      self.release_withs()
     dynamic_ctx = self.dyn > 0 or fr.n_returns > 1 or fr.ret_var is not None
     if self.intlike(val) and (isinstance(val, SE) or dynamic_ctx):
       if fr.ret_var is None:
@@ -693,11 +703,13 @@ class Compiler:
       self.label()
 
   def s_Break(self, s):
+    self.release_withs(len(self.loops))
     j = self._emit(ir.Jump())
     self.loops[-1].break_edges.append((j, "next"))
     self.dangling = []
 
   def s_Continue(self, s):
+    self.release_withs(len(self.loops))
     j = self._emit(ir.Jump())
     self.loops[-1].continue_edges.append((j, "next"))
     self.dangling = []
@@ -813,6 +825,47 @@ class Compiler:
     self.dangling = ends
     if self.dangling:
       self.label()
+
+  def s_With(self, s):
+    if len(s.items) != 1:
+      raise TranslationError("with statement with several items")
+    cm = self.expr(s.items[0].context_expr)
+    if not (isinstance(cm, SO) and cm.model.cls == "RLock"):
+      raise TranslationError("with statement on %r (only locks are modelled)" % (cm,))
+    if s.items[0].optional_vars is not None:
+      raise TranslationError("with ... as")
+    self.op(cm.model, "acquire", [])
+    per_exc = {}
+    fr = self.frames[-1]
+    entry = ("<with>", per_exc, cm.model, len(self.loops))
+    self.handlers.append(entry)
+    fr.withs = getattr(fr, "withs", [])
+    fr.withs.append(entry)
+    self.block(s.body)
+    fr.withs.pop()
+    self.handlers.pop()
+    ends = []
+    if self.dangling:
+      self.op(cm.model, "release", [], want=0)
+      ends = list(self.dangling)
+    for exname, edges in per_exc.items():
+      if not edges:
+        continue
+      self.dangling = edges
+      self.label()
+      self.op(cm.model, "release", [], want=0)
+      self.raise_exc(exname)
+    self.dangling = ends
+    if self.dangling:
+      self.label()
+
+  def release_withs(self, upto_loops=None):
+    """return / break / continue leave the enclosing with-blocks of this frame: release their locks first"""
+    fr = self.frames[-1]
+    for entry in reversed(getattr(fr, "withs", [])):
+      if upto_loops is not None and entry[3] < upto_loops:
+        break
+      self.op(entry[2], "release", [], want=0)
 
   # ---- expressions ---------------------------------------------------------------------------------------------
   def cond(self, e):
